@@ -787,6 +787,12 @@ func poolPut(in *Interp, st *State, fn *ssa.Function, args []Value, retTo ssa.Va
 	if ifc, ok := args[1].(Iface); ok && ifc.T != nil {
 		if p, ok := ifc.V.(Ptr); ok && !p.IsNil() {
 			if sl, ok := st.load(p).(Slice); ok && sl.Obj >= 0 {
+				for _, r := range st.recycled {
+					if r == sl.Obj {
+						// the pool would hand the same buffer to two receivers at once
+						panic(endPath{kind: "use-after-recycle", msg: "a receive buffer is returned to the pool twice", pos: pos})
+					}
+				}
 				st.recycled = append(append([]int(nil), st.recycled...), sl.Obj)
 			}
 		}
